@@ -125,7 +125,8 @@ def behaviour(ratio, step, order, num_terms, length, ncols, kappa, w1, singular)
     """Run the real Richardson on model sequences.  returns (problem or None, n_calls)"""
     from numdifftools.extrapolation import Richardson
     nt = min(num_terms, length - 1)
-    rich = Richardson(step_ratio=lib_ratio(ratio), step=step, order=order, num_terms=num_terms)
+    # built positionally in the documented order (step_ratio, step, order, num_terms); the weight check builds by keyword
+    rich = Richardson(lib_ratio(ratio), step, order, num_terms)
     cplx = isinstance(ratio, complex)
     calls = 0
     for h0 in H0S:
